@@ -409,7 +409,8 @@ class Encoder(object):
                 put(0, n, True)
             else:
                 constrained_whole_number(w, n, lb, ub)
-                if ub * b > 16:
+                # 30.5.7: variable size is octet-aligned from 16 bits on (30.5.6, fixed size: above 16 bits)
+                if ub * b >= 16:
                     w.align()
                 put(0, n, True)
             return
